@@ -329,6 +329,38 @@ fn main() {
         t
     });
 
+    // S3b sparse tails behind the rounding digit ({:.N} and {:.Ne})
+    let tail_lens: Vec<usize> = if tier.is_thorough() { (0..=72).chain([100, 127, 128, 129]).collect() } else { (0..=40).chain([63, 64, 65]).collect() };
+    let tails = sparse_tails(&tail_lens);
+    run.bound("S3b_tail_lengths", json!(tail_lens));
+    run.par("S3b sparse tails (one non-zero digit at every position)", tails.len(), |i| {
+        let mut t = Tally::default();
+        for head in ["1", "2", "19", "99"] {
+            for d0 in ['0', '5', '4', '9'] {
+                let digits = format!("{}{}{}", head, d0, tails[i]);
+                let l = digits.len() as i128;
+                let h = head.len() as i128;
+                for sign in [1, -1] {
+                    // the head as integer part / entirely fractional / fractional with leading zeros
+                    for s in [l - h, l, l + 2] {
+                        let x = Dec { n: big(&digits) * sign, s };
+                        // number of fraction digits that keeps exactly the head
+                        let n_keep = (s - (l - h)) as usize;
+                        let mut ns = vec![n_keep, n_keep + 1];
+                        if n_keep > 0 {
+                            ns.push(n_keep - 1);
+                        }
+                        ns.push(h as usize - 1); // for the exponent forms: h significant digits
+                        ns.sort();
+                        ns.dedup();
+                        sweep(&run, &cfg, &x, &ns, &mut t);
+                    }
+                }
+            }
+        }
+        t
+    });
+
     // S4 flags
     let ts = templates();
     let mut pool: Vec<Dec> = vec![];
